@@ -337,6 +337,48 @@ def r03_5(ctx: Ctx) -> None:
                        form=txt(par))
 
 
+WRAP_SCOPE = ["antismash/common/hmm_rule_parser/cluster_prediction.py", "antismash/common/hmm_rule_parser/rule_parser.py",
+              "antismash/common/utils.py", "antismash/detection/hmm_detection/__init__.py",
+              "antismash/common/secmet/features/candidate_cluster/formation.py"]
+WRAP_OWNERS = ("antismash/common/secmet/locations.py", "antismash/common/secmet/record.py")
+
+
+def r03_6(ctx: Ctx, rule: str = "R03.6") -> None:
+    """ who may measure a distance linearly: the location API has a wrap point that defaults to None; detection on a
+        circular record has to go through the record (which supplies its length) or pass the wrap point itself """
+    from ..flow import path_facts
+    files = WRAP_SCOPE if ctx.tier == "quick" else [rel for rel in sorted(ctx.repo.modules) if rel not in WRAP_OWNERS]
+    count = 0
+    for rel in files:
+        if rel not in ctx.repo.modules:
+            continue
+        for qual, func in ctx.repo.functions(rel):
+            sites = [c for c in walk_local(func) if isinstance(c, ast.Call) and (
+                last_attr(c) in ("get_distance_to", "get_distance_between_locations", "get_distance_between_features"))]
+            if not sites:
+                continue
+            ctx.repo.consulted.add(rel)
+            cfg = CFG(func)
+            for call in sites:
+                count += 1
+                name = last_attr(call)
+                via_record = isinstance(call.func, ast.Attribute) and name in ("get_distance_between_locations",
+                                                                               "get_distance_between_features")
+                wrap = kwarg(call, "wrap_point")
+                positional = len(call.args) >= (3 if isinstance(call.func, ast.Name) else 2) and name != "get_distance_between_features"
+                linear_context = any(("circular" in txt(e) or "wrap" in txt(e)) and not t for e, t in path_facts(cfg, call))
+                ok = via_record or wrap is not None or positional or linear_context
+                how = "through the record" if via_record else "wrap point passed" if (wrap is not None or positional) else \
+                    "only reached when not circular" if linear_context else "linear distance"
+                ctx.ob(rule, rel, call, qual, f"distance {txt(call)[:70]}", ok,
+                       "a distance between locations used by detection is measured around the origin on circular records: "
+                       "through the record's own distance methods, with an explicit wrap point, or only where the context is "
+                       "known not to be circular", detail="" if ok else "the location API defaults to no wrap point: genes on "
+                       "opposite sides of the origin are never within the cutoff", form=how)
+    if count < 4:
+        raise AnalysisError(f"expected at least 4 distance measurements in the detection code, found {count}")
+
+
 def run(ctx: Ctx) -> None:
     ctx.rule("R03.1", "loop-carried definition rule on the per-rule evaluation in apply_cluster_rules", floor=5)
     ctx.rule("R03.2", "'closer than cutoff' sites are strict and use exactly the cutoff", floor=2)
@@ -348,3 +390,5 @@ def run(ctx: Ctx) -> None:
     r03_4(ctx)
     ctx.rule("R03.5", "sorted-sweep consistency of the origin merge", floor=3)
     r03_5(ctx)
+    ctx.rule("R03.6", "distances used by detection are wrap-aware", floor=4)
+    r03_6(ctx)
